@@ -94,6 +94,13 @@ CLAIMED = {
             "Theorem C17_partial; error kinds compared on 12 families × random valid remainders; scipy failures forced via nsteps.",
             "scipy's success flag semantics observed, not proved.",
             "DESIGN §6 C17"),
+    "C10": ("Lean 4 proof on exact dyadic arithmetic (two-decimal half-even rounding is nearest; clamped name stays on the grid range; "
+            "file exists for every metallicity given a complete grid with both zero spellings; argmin row is nearest) + kernel check "
+            "(decide +kernel) that the four regenerated file-name grids are complete + correspondence of format/clamp/opened files",
+            "Theorem C10_holds for every double; the grids are re-listed from /repo's data directory on every run and re-checked by the kernel; "
+            "which file each predictor and the kick routine opens is observed by wrapping numpy.loadtxt.",
+            "Python's float formatting trusted to equal the model's rounding (compared on >2e4 floats incl. exact ties).",
+            "DESIGN §6 C10"),
 }
 
 NOT_YET = "check not built yet in this session (planned: see DESIGN §6); not claimed until its quick check is silent on the clean tree"
